@@ -6,6 +6,7 @@ HERE = os.path.dirname(os.path.dirname(os.path.abspath(__file__)))
 matrix = json.load(open(os.path.join(HERE, 'seeded', 'matrix.json')))
 rows = []
 OOD = json.load(open(os.path.join(HERE, 'seeded', 'out_of_domain.json')))['seeds']
+SCREEN = json.load(open(os.path.join(HERE, 'seeded', 'screening.json'))) if os.path.exists(os.path.join(HERE, 'seeded', 'screening.json')) else {}
 ood_rows = []
 for rnd, incname in ((1, '_incoming'), (2, '_incoming2'), (3, '_incoming3'), (4, '_incoming4'), (5, '_incoming5'), (6, '_incoming6')):
     INC = os.path.join(HERE, 'seeded', incname)
@@ -36,6 +37,9 @@ for rnd, incname in ((1, '_incoming'), (2, '_incoming2'), (3, '_incoming3'), (4,
         row = matrix.get(mkey, {})
         caught = sorted(c for c, r in row.items() if isinstance(r, dict) and not c.startswith('_') and r.get('rc') == 1)
         own = prop in caught
+        screened = (not row) and SCREEN.get(mkey, {}).get('own_check_reports_it')
+        if screened:
+            own = True; caught = [prop + ' (own check only; the other checks were not run on this change)']
         meta = {
             'id': sid, 'property': prop, 'round': rnd, 'source': 'independent sub-agent given only the property text and a scratch worktree of /repo' + (' (round %d: told which ideas were already used, asked for different ones)' % rnd if rnd > 1 else ''),
             'summary': am.get('summary'), 'needs_to_manifest': am.get('needs_to_manifest'), 'files_touched': am.get('files_touched'),
@@ -44,7 +48,7 @@ for rnd, incname in ((1, '_incoming'), (2, '_incoming2'), (3, '_incoming3'), (4,
                                'suite_with_patch': v.get('suite'), 'demo_exit_with_patch': v.get('demo_with'), 'demo_exit_without_patch': v.get('demo_without')},
             'detection': {'what_was_run': 'tools/matrix.py: patch applied to a scratch worktree, all 19 quick checks run against it (VERIF_REPO)',
                           'caught_by': caught, 'caught_by_own_property_check': own,
-                          'rules': {c: row[c].get('rules') for c in caught}},
+                          'rules': {c: row[c].get('rules') for c in caught if c in row}, 'row_computed_at': row.get('_at')},
         }
         json.dump(meta, open(os.path.join(dst, 'meta.json'), 'w'), indent=1, ensure_ascii=False)
         if mkey in OOD:
